@@ -211,6 +211,37 @@ def no_push_before_reject(ctx):
                     facts={'pushes': [x.line for x, _ in bad]})
 
 
+def no_state_across_attempts(ctx):
+    repo = ctx.repo
+    f, pv = _push_vars(repo)
+    rule = 'C18.no-state-survives-a-rejected-line'
+    ctx.rule(rule, 'the per-line helper mutates only its own locals (and '
+             'the operand stack after validation): a container it appends '
+             'to must be created inside it, otherwise values converted from '
+             'a rejected line survive into the next attempt')
+    from .. import effects
+    local = set()
+    for n in ast.walk(pv):
+        if isinstance(n, ast.Name) and isinstance(n.ctx, ast.Store):
+            local.add(n.id)
+    local |= {a.arg for a in pv.args.args}
+    n_mut = 0
+    for kind, root, path, line, text in effects.writes(pv, shallow=False):
+        if root in ('self',):
+            continue
+        n_mut += 1
+        construct = f'{f.file}:push_vars:{kind}:{path or "?"}'
+        ctx.instance(rule, construct, sample={'root_is_local': root in local})
+        if root not in local:
+            ctx.finding(rule, f'{f.file}:TerminalDevice._exec_input.'
+                        f'push_vars:nonlocal-state',
+                        f'push_vars mutates {text}, which is defined '
+                        f'outside it and therefore shared between attempts: '
+                        f'fields converted from a rejected line are kept and '
+                        f'pushed with the next accepted line', f.file, line)
+    ctx.floor('mutations in push_vars', n_mut, 1)
+
+
 def range_constants(ctx):
     repo = ctx.repo
     f, pv = _push_vars(repo)
@@ -431,6 +462,7 @@ def run(ctx):
                      f'{f.file}:push_vars')
     arg_protocol(ctx)
     no_push_before_reject(ctx)
+    no_state_across_attempts(ctx)
     range_constants(ctx)
     builtin_targets(ctx)
     retry_loop(ctx)
